@@ -485,8 +485,13 @@ def _amal_inputs():
     for tag, base, enc in (('A', 10.0, 'csr'), ('B', 50.0, 'dense')):
         x = np.array([[base + 3 * r + c if (r + c) % 2 == 0 else 0.0
                        for c in range(3)] for r in range(3)])
+        x = x + (0.25 if tag == 'A' else 0.0) * (x > 0)
         raw = np.array([[base + 100 + 3 * r + c if (r + 2 * c) % 3 != 0
                          else 0.0 for c in range(3)] for r in range(3)])
+        if tag == 'A':
+            # the layer of file A is stored as 32-bit integers, its X as
+            # floats with fractional values
+            raw = raw.astype(np.int32)
         mats[tag] = {'X': x, 'raw': raw}
         conv = sp.csr_matrix if enc == 'csr' else (lambda m: m)
         a = anndata.AnnData(X=conv(x), layers={'raw': conv(raw)},
@@ -510,15 +515,18 @@ def h_amalgamate_files(ctx, case):
     from harness.common import sandbox_root
     inp = _amal_inputs()
     ROWS = [[0], [2, 0], [1, 2]]
-    pieces, want = [], []
+    pieces, want, used = [], [], []
     for k in range(case.get('pieces', 2)):
         tag = ['A', 'B'][ctx.choice(f'file[{k}]', 2)]
         layer = ['X', 'raw'][ctx.choice(f'layer[{k}]', 2)]
         rows = ROWS[ctx.choice(f'rows[{k}]', len(ROWS))]
         pieces.append({'path': inp['mats'][tag]['path'], 'rows': list(rows),
                        'layer': layer})
+        used.append((tag, layer))
         want += [inp['mats'][tag][layer][r] for r in rows]
-    want = np.array(want)
+    kinds = {str(inp['mats'][tag][layer].dtype)
+             for tag, layer in used}
+    want = np.array(want, dtype=float)
     sparse = ctx.flag('dst_sparse')
     work = os.path.join(sandbox_root(), 'amal_work')
     import shutil
@@ -532,15 +540,23 @@ def h_amalgamate_files(ctx, case):
                            dst_var=var, dst_sparse=sparse,
                            tmp_dir=os.path.join(work, 'scratch'),
                            compression=bool(case.get('compression')))
+    except RuntimeError as e:
+        if len(kinds) > 1 and 'disparate data types' in str(e):
+            # arrays of different types are refused, not converted
+            ctx.reach('refused')
+            return 'refused'
+        ctx.exception(e)
+        return 'EXC RuntimeError'
     except Exception as e:
         ctx.exception(e)
         return 'EXC ' + type(e).__name__
     ctx.reach('stacked')
     got = anndata.read_h5ad(dst)
     X = got.X.toarray() if hasattr(got.X, 'toarray') else np.asarray(got.X)
-    ctx.check(X.shape == want.shape and bool(np.array_equal(X, want)),
+    ctx.check(X.shape == want.shape and
+              bool(np.array_equal(np.asarray(X, dtype=float), want)),
               'X of the result == the selected rows of the selected layers, '
-              'in order')
+              f'in order (storage types of the pieces: {sorted(kinds)})')
     ctx.check(list(got.obs.index) == list(obs.index) and
               list(got.var.index) == list(var.index),
               'obs / var of the result are the ones given')
@@ -626,7 +642,7 @@ HARNESSES = [
                    'layer that differ; 2 (3) pieces, each any file, either '
                    'layer, one of three row lists (incl. out of order); '
                    'sparse or dense result',
-            expect_reach=['stacked'], split=16),
+            expect_reach=['stacked', 'refused'], split=16),
     Harness('transpose_by_way_of_disk', h_by_way_of_disk, **BY_WAY),
     Harness('transpose_on_disk', h_transpose, setup=setup_tr,
             cases=[{'shape': [2, 3]}, {'shape': [3, 2]},
